@@ -2,9 +2,13 @@
    connecting arms exactly one probe timer and one timer per enabled periodic task with the
    current token; set_config can neither change probe timing nor enable a task; disabled or
    not-connected periodic timers are dropped without effect.
-   PARTIAL: the history-level "exactly one outstanding timer per loop" accounting and the
-   in-order-delivery clause are decided by the falsifier on the real crate (DESIGN.md). *)
-From Foca Require Import Laws FocaM L_Reject L_Timers.
+   History level (L_Acct.v): with a runtime that delivers each scheduled timer exactly once, the
+   pending set always holds exactly one timer per enabled loop carrying the current token while
+   the instance is connected and none otherwise; handle_timer fails at most with
+   IncompleteProbeCycle (or Encode, or NotConnected for a probe timer nobody can have pending).
+   PARTIAL: that deadline-order delivery never yields IncompleteProbeCycle needs the clock and is
+   decided by the falsifier on the real crate (DESIGN.md). *)
+From Foca Require Import Laws MembersM FocaM L_Reject L_Timers L_Acct.
 
 Section C13.
 Context {Id Addr : Type} {IO : IdOps Id Addr} {CO : CodecOps Id} {HO : HandlerOps Id}.
@@ -54,9 +58,132 @@ Proof. exact (not_connected_periodic_noop rnd f tok t). Qed.
 
 End C13.
 
+Section C13_history.
+Context {Id Addr : Type} {IO : IdOps Id Addr} {CO : CodecOps Id} {HO : HandlerOps Id} {IL : IdLaws IO}.
+
+(* the recurring loops and what counts as one of their timers *)
+Theorem C13_loop_timers (t : timer Id) :
+  loop_of t = match t with
+              | TProbeRandomMember k => Some (LProbe, k)
+              | TPeriodicAnnounce k => Some (LAnn, k)
+              | TPeriodicAnnounceDown k => Some (LAnnDown, k)
+              | TPeriodicGossip k => Some (LGossip, k)
+              | _ => None
+              end.
+Proof. reflexivity. Qed.
+
+(* cnt K k P = number of pending timers of loop K carrying token k *)
+Theorem C13_cnt_meaning (K : lk) (k : N) (P : list (timer Id)) :
+  cnt K k P = length (filter (fun t => match loop_of t with
+                                       | Some (K', k') => lk_eqb K K' && (k =? k')
+                                       | None => false
+                                       end) P).
+Proof.
+  unfold cnt, cntp, pairs_of. induction P as [|t P IH]; [reflexivity|].
+  cbn [flat_map filter]. destruct (loop_of t) as [[K' k']|]; cbn [app filter fst snd].
+  - destruct (lk_eqb K K' && (k =? k')); cbn [length]; rewrite IH; reflexivity.
+  - exact IH.
+Qed.
+
+(* THE INVARIANT: while connected, exactly one pending timer with the current token for the probe
+   loop and for each enabled periodic task; while not connected, none (so nothing pending is
+   effective: C13_stale_timer_noop) *)
+Theorem C13_invariant_meaning (f : @foca Id Addr HO) (P : list (timer Id)) :
+  Inv f P <->
+  (forall K, (conn f = Connected -> In K (enabled (cfg f)) -> cnt K (token f) P = 1%nat)
+          /\ (conn f <> Connected -> cnt K (token f) P = 0%nat)).
+Proof. reflexivity. Qed.
+
+Theorem C13_enabled_loops (c : config) :
+  enabled c = LProbe :: (if is_some (periodic_announce c) then [LAnn] else [])
+                     ++ (if is_some (periodic_announce_down c) then [LAnnDown] else [])
+                     ++ (if is_some (periodic_gossip c) then [LGossip] else []).
+Proof. reflexivity. Qed.
+
+(* the side conditions of the step theorems, spelled out *)
+Theorem C13_side_conditions (f f' : @foca Id Addr HO) (P1 : list (timer Id)) (es : list (effect Id)) (r : result) (t : timer Id) :
+  (clean r <-> match r with Failed EEncode => False | Panicked _ => False | _ => True end)
+  /\ (epoch_changed f f' es <-> snd (acc es) = true \/ token f' <> token f)
+  /\ (no_alias f' P1 es <->
+      forall K d, pairs_of (subm es) = d ++ fst (acc es) ->
+                  cnt K (token f') P1 = 0%nat /\ cntp K (token f') d = 0%nat)
+  /\ live_timer f t =
+     match t with
+     | TProbeRandomMember k => if (k =? token f) && conn_eqb (conn f) Connected then Some LProbe else None
+     | TPeriodicAnnounce k =>
+         if (k =? token f) && conn_eqb (conn f) Connected && is_some (periodic_announce (cfg f)) then Some LAnn else None
+     | TPeriodicAnnounceDown k =>
+         if (k =? token f) && conn_eqb (conn f) Connected && is_some (periodic_announce_down (cfg f)) then Some LAnnDown else None
+     | TPeriodicGossip k =>
+         if (k =? token f) && conn_eqb (conn f) Connected && is_some (periodic_gossip (cfg f)) then Some LGossip else None
+     | _ => None
+     end.
+Proof. split; [reflexivity|]. split; [reflexivity|]. split; reflexivity. Qed.
+
+(* acc es = (loop timers (kind, token) submitted after the last Idle / Defunct / Rejoin notification
+   of es, whether there was such a notification) *)
+Theorem C13_acc_meaning (es : list (effect Id)) (e : effect Id) :
+  acc (@nil (effect Id)) = ([], false)
+  /\ acc (es ++ [e]) =
+     match e with
+     | Notify n => if epoch_note n then ([], true) else acc es
+     | Submit t _ => match loop_of t with Some x => (fst (acc es) ++ [x], snd (acc es)) | None => acc es end
+     | Send _ _ => acc es
+     end.
+Proof. split; [reflexivity|]. rewrite acc_snoc. reflexivity. Qed.
+
+Theorem C13_invariant_initially (id0 : Id) (c0 : config) (h0 : hstate) :
+  Inv (@foca_init Id Addr HO id0 c0 h0) [].
+Proof. intros K. split; [cbn; discriminate|reflexivity]. Qed.
+
+(* a call that is not the delivery of a live loop timer (any datagram, API call, stale or
+   non-loop timer); P is what is pending during the call, P ++ submitted afterwards *)
+Theorem C13_invariant_other (rnd : oracle) (f : @foca Id Addr HO) (P : list (timer Id)) (i : @input Id) :
+  Inv f P ->
+  match i with ITimer t => live_timer f t = None | _ => True end ->
+  let '(f', es, r, _) := step rnd f i in
+  clean r -> (epoch_changed f f' es -> no_alias f' P es) ->
+  Inv f' (P ++ subm es).
+Proof. exact (loop_invariant_other rnd f P i). Qed.
+
+(* taking a delivered timer out of the pending set when it is not a live loop timer *)
+Theorem C13_invariant_deliver_nonlive (f : @foca Id Addr HO) (P1 P2 : list (timer Id)) (t : timer Id) :
+  Inv f (P1 ++ t :: P2) -> live_timer f t = None -> Inv f (P1 ++ P2).
+Proof. exact (Inv_remove_nonlive f P1 P2 t). Qed.
+
+(* delivery of the live timer of an enabled loop: exactly one successor is scheduled *)
+Theorem C13_invariant_live (rnd : oracle) (f : @foca Id Addr HO) (P1 P2 : list (timer Id)) (t : timer Id) (K : lk) :
+  Inv f (P1 ++ t :: P2) -> live_timer f t = Some K ->
+  let '(f', es, r, _) := step rnd f (ITimer t) in
+  clean r -> Inv f' (P1 ++ P2 ++ subm es).
+Proof. exact (loop_invariant_live rnd f P1 P2 t K). Qed.
+
+(* handle_timer: Done, or Encode / IncompleteProbeCycle, or NotConnected for a current-token probe
+   timer while not connected (never pending under the invariant) *)
+Theorem C13_timer_errors (rnd : oracle) (f : @foca Id Addr HO) (t : timer Id) :
+  match snd (fst (step rnd f (ITimer t))) with
+  | Failed e => e = EEncode \/ e = EIncompleteProbeCycle
+                \/ (e = ENotConnected /\ conn f <> Connected /\ t = TProbeRandomMember (token f))
+  | _ => True
+  end.
+Proof. exact (handle_timer_errors rnd f t). Qed.
+
+End C13_history.
+
 Print Assumptions C13_stale_timer_noop.
 Print Assumptions C13_connect_arms_every_loop_once.
 Print Assumptions C13_set_config_cannot_start_loops.
 Print Assumptions C13_set_config_emits_nothing.
 Print Assumptions C13_disabled_task_timer_dropped.
 Print Assumptions C13_not_connected_periodic_noop.
+Print Assumptions C13_loop_timers.
+Print Assumptions C13_cnt_meaning.
+Print Assumptions C13_invariant_meaning.
+Print Assumptions C13_enabled_loops.
+Print Assumptions C13_side_conditions.
+Print Assumptions C13_acc_meaning.
+Print Assumptions C13_invariant_initially.
+Print Assumptions C13_invariant_other.
+Print Assumptions C13_invariant_deliver_nonlive.
+Print Assumptions C13_invariant_live.
+Print Assumptions C13_timer_errors.
